@@ -114,19 +114,24 @@ def run(prog, rep, tier, cfg):
     X.callers('K5', 'notify_pledge_changed', is_notify, list(NOTIFY.keys()), crates=[CR])
     # ---- power side
     X.writers('K4', 'State', 'total_pledge_collateral', ['state::State::add_pledge_total'], crate=PW, constructors=['state::State::new'])
-    X.callers('K5', 'power State::add_pledge_total', lambda c: callee_is('state::State::add_pledge_total')(c) and c.fn.crate == PW, ['Actor::update_pledge_total'])
+    # (field-based: the rows below hold whether the one-line mutator `add_pledge_total` exists or is inlined)
     UP = X.fn('Actor::update_pledge_total', PW)
+    ups = X.ledger_updates('State', 'total_pledge_collateral', PW)
+    rep.need('K10', 'power:total-accumulates', len(ups) >= 1 and all(d == '+' for (_g, d, _b, _l, _a) in ups),
+             'the network pledge total is only ever updated by `+= delta` (found %s)' % [(g.id.split('::')[-1], d) for (g, d, _b, _l, _a) in ups], X.loc(UP))
+    for (g, d, bb, line, atoms) in ups:
+        rep.need('K10', 'power:adds-the-delta', has_atom(atoms, 'F:UpdatePledgeTotalParams.pledge_delta'), 'the total changes by the reported delta; the added value derives from %s' % sendsmod.pretty(atoms), X.loc(g, bb))
+        rep.need('K5', 'power:total-updated-only-by-UpdatePledgeTotal', X.entries_of(g.id) == {'power.UpdatePledgeTotal'},
+                 'the update site is reachable from %s only UpdatePledgeTotal may change the total' % sorted(X.entries_of(g.id)), X.loc(g, bb))
+    seen_cl = False
     for cl in prog.closures_of(UP.id, recursive=False):
-        ad = [c for c in cl.calls if callee_is('state::State::add_pledge_total')(c)]
-        if not ad:
+        eb = X.effect_blocks(cl, 'State', 'total_pledge_collateral')
+        if not eb:
             continue
+        seen_cl = True
         X.guard('K6b', 'power:pledge-total-non-negative', cl, cl.ret_blocks(), m_pred('is_negative', ['F:State.total_pledge_collateral'], False), 'negative total => Err')
-        X.call_guard('K6a', 'power:claim-checked', cl, [c.bb for c in ad], callee_is('state::State::validate_miner_has_claim'), 'validate_miner_has_claim(caller)?')
-        for c in ad:
-            X.arg_has('K10', 'power:adds-the-delta', c, 1, ['F:UpdatePledgeTotalParams.pledge_delta'], 'the total changes by the reported delta', narrow=False)
+        X.call_guard('K6a', 'power:claim-checked', cl, eb, callee_is('state::State::validate_miner_has_claim'), 'validate_miner_has_claim(caller)?')
         for c in cl.calls:
             if callee_is('state::State::validate_miner_has_claim')(c):
                 X.arg_has('K10', 'power:claim-of-caller', c, 2, ['C:MessageInfo::caller'], 'the claim checked is the caller\'s', narrow=False)
-    AP = X.fn('state::State::add_pledge_total', PW)
-    X.accumulates('K10', 'power:total-accumulates', AP, ['P:2'], 'total_pledge_collateral += delta') if any((c.defp or '').endswith('AddAssign::add_assign') for c in AP.calls) else \
-        X.value_from('K10', 'power:total-accumulates', AP, X.stmt_rvalue_atoms(AP, 'State', 'total_pledge_collateral', narrow=False), ['F:State.total_pledge_collateral', 'P:2'], 'total := total + delta')
+    rep.need('K5', 'power:update-in-transaction', seen_cl, 'UpdatePledgeTotal changes the total inside its state transaction', X.loc(UP))
